@@ -18,6 +18,7 @@ GEOMS = [
     ("path", SQ + SQ),                                                # coincident: cancel under evenodd
     ("path", SQ + SQ_IN),                                             # nested same direction
     ("path", SQ),
+    ("path", [["M", 9, 1], ["L", 9, 5], ["L", 4, 5], ["Z"]]),          # closed, start off the diagonal
     ("path", [["M", 1, 1], ["L", 9, 9]]),                             # open two-point line
     ("path", [["M", 2, 2], ["L", 10, 10], ["L", 10, 2], ["L", 2, 10], ["Z"]]),
     ("path", [["M", 1, 1], ["M", 5, 5], ["M", 2, 8]]),                # several movetos
@@ -100,9 +101,12 @@ def doc_job(shapes):
 
 def sub_job(job):
     from picosvg.svg_types import SVGPath
-    subs, at = job
+    subs, at, implicit = job
     rec = {"kind": "subpaths", "subs": subs, "at": at, "box": BOX, "kept": [0] * len(subs), "rest": -1}
-    d = " ".join(c[0] + " ".join(str(x) for x in c[1:]) for s in subs for c in s)
+    # implicit = indices of subpaths written WITHOUT their moveto (they follow a closepath and start
+    # at the start point of the closed subpath before them, SVG 8.3.3)
+    d = " ".join(c[0] + " ".join(str(x) for x in c[1:])
+                 for k, s in enumerate(subs) for c in (s[1:] if k in implicit else s))
     kw = {}
     for name, v, via in at:
         kw[name.replace("-", "_")] = D.attr_value(name, v) if name not in ("stroke-width",) else float(v)
@@ -160,7 +164,21 @@ def run(out, tier):
             k = rng.choice([1, 2, 3])
             at = [a for a in rng.choice(combos) if a[0] != "display"]
             at = [[n, v, 0] for n, v, via in at]
-            subjobs.append(([rng.choice(SUBS) for _ in range(k)], at))
+            subs = [rng.choice(SUBS) for _ in range(k)]
+            implicit = []
+            for i in range(1, len(subs)):
+                prev, cur = subs[i - 1], subs[i]
+                if prev[-1][0] in "Zz" and len(cur) > 1 and cur[1][0] not in "Mm" and rng.random() < 0.5:
+                    # continue after the closepath without a moveto: same geometry as starting at prev's start
+                    subs[i] = [["M", prev[0][1], prev[0][2]]] + cur[1:]
+                    implicit.append(i)
+            subjobs.append((subs, at, implicit))
+        # exhaustive: every closed subpath followed by every other one continuing without a moveto
+        for prev in SUBS:
+            for cur in SUBS:
+                if prev[-1][0] in "Zz" and len(cur) > 1:
+                    for at in ([], [["fill", "none", 0], ["stroke", "blue", 0]]):
+                        subjobs.append(([prev, [["M", prev[0][1], prev[0][2]]] + cur[1:]], at, [1]))
         for r, d in common.pmap(sub_job, subjobs, chunksize=32):
             recs.append(r)
             meta.append(("subpaths", d + " " + json.dumps(r["at"])))
@@ -181,7 +199,7 @@ def run(out, tier):
                        "coincident subpaths cancelling under evenodd, nested, open lines ...) x combinations of "
                        "fill, stroke, stroke-width, opacity, fill-opacity, stroke-opacity, display, fill-rule given "
                        "as attribute or style (quick: %s of 11520 combinations per shape); documents of 2-4 such "
-                       "shapes through remove_unpainted_shapes; paths of 1-3 subpaths through "
+                       "shapes through remove_unpainted_shapes; paths of 1-3 subpaths (some continuing after a closepath without a moveto) through "
                        "remove_empty_subpaths with the path's own paint" % (len(GEOMS), ncombo or "all"))
         for (kind, src), v in zip(meta, verdicts):
             if v.startswith("ok:unpaintable-no") and len(cov["samples"]) < 1:
